@@ -26,8 +26,16 @@ class _VecSim:
             t |= {self.n, self.n + 1, max(0, self.n - 1), 2 * self.n + 2, 2 * self.n + 3}
         return sorted(x for x in t if x <= 80)
 
+def _val_for(rng, elem):
+    """dbl: codes 0..4 are +0.0, -0.0, NaN, +inf, -inf; pod: code = key*4 + tag, equality ignores the tag"""
+    if elem == "dbl":
+        return rng.choice([0, 1, 2, 3, 4, 0, 1, 2, 5, 6, 7, rng.randrange(5, 1 << 40)])
+    if elem == "pod":
+        return rng.randrange(16) if rng.random() < 0.9 else rng.randrange(1 << 30)
+    return _val(rng)
+
 def gen_vec(rng, n_ops, elem=None, cont="vec", small_n=None):
-    elem = elem or rng.choice(ELEMS)
+    elem = elem or rng.choice(ELEMS + (["dbl", "pod"] if cont == "vec" else []))
     copy_ok = elem != "mo"
     hdr = "type %s %s" % (cont, elem) + (" %d" % small_n if cont == "sv" else "")
     sim = _VecSim(small_n if cont == "sv" else None)
@@ -46,7 +54,7 @@ def gen_vec(rng, n_ops, elem=None, cont="vec", small_n=None):
         k = rng.choices(list(w), list(w.values()))[0]
         if k == "push":
             o = rng.choice((["push"] if copy_ok else []) + ["pushm", "emplace"])
-            lines.append("%s %d %d" % (o, r, _val(rng)))
+            lines.append("%s %d %d" % (o, r, _val_for(rng, elem)))
             sim.ensure(r, sim.size[r] + 1); sim.size[r] += 1
         elif k == "pop":
             if sim.size[r] == 0 and rng.random() < 0.97:
@@ -58,7 +66,7 @@ def gen_vec(rng, n_ops, elem=None, cont="vec", small_n=None):
         elif k == "resize":
             n = rng.choice(sim.targets(r))
             if copy_ok and rng.random() < 0.5:
-                lines.append("resizev %d %d %d" % (r, n, _val(rng)))
+                lines.append("resizev %d %d %d" % (r, n, _val_for(rng, elem)))
             else:
                 lines.append("resize %d %d" % (r, n))
             sim.ensure(r, n); sim.size[r] = n
@@ -68,7 +76,7 @@ def gen_vec(rng, n_ops, elem=None, cont="vec", small_n=None):
             else:
                 lines.append("clear %d" % r); sim.size[r] = 0
         elif k == "obs":
-            o = rng.choice(["front", "back", "idx", "eq"] if cont == "vec" else ["front", "back", "idx"])
+            o = rng.choice((["front", "back", "idx", "eq"] + (["eq"] * 4 if elem in ("dbl", "pod") else [])) if cont == "vec" else ["front", "back", "idx"])
             if o == "eq":
                 lines.append("eq %d %d" % (r, s))
             elif o == "idx":
@@ -278,6 +286,15 @@ def corpus():
         cs.append(("corpus-sv-doublings-" + elem, ["type sv %s 4" % elem] + ["%s 0 %d" % (push, i + 1) for i in range(40)] + ["pop 0"] * 40 + ["%s 0 5" % push]))
     cs.append(("corpus-vec-whole", ["type vec tv", "push 0 1", "push 0 2", "assign 1 0", "eq 0 1", "push 1 3", "eq 0 1", "massign 2 1", "swap 0 2",
                                     "cctor 1 0", "mctor 2 1", "assign 0 0", "massign 1 1", "swap 2 2", "clear 0", "eq 0 1"]))
+    # element equality that is not bytewise: +0.0 == -0.0, NaN != NaN, a POD compared by key only
+    cs.append(("corpus-eq-double", ["type vec dbl", "push 0 0", "push 1 1", "eq 0 1", "push 0 2", "assign 1 0", "eq 0 1", "eq 1 0", "eq 0 0",
+                                    "clear 0", "clear 1", "push 0 3", "push 1 4", "eq 0 1", "push 2 7", "assign 0 2", "eq 0 2"]))
+    cs.append(("corpus-eq-pod", ["type vec pod", "push 0 5", "push 1 6", "eq 0 1", "push 0 9", "push 1 13", "eq 0 1", "assign 2 0", "eq 2 0", "push 2 1", "eq 2 0"]))
+    # container variables on different allocator instances: the allocator travels with the heap block
+    cs.append(("corpus-alloc-instances-sv", ["type sv tv 2", "push 0 1", "push 0 2", "push 0 3", "push 1 7", "swap 0 1", "push 1 4", "push 1 5", "push 1 6", "push 1 8",
+                                             "push 0 9", "push 0 10", "push 0 11", "mctor 2 0", "swap 2 1"]))
+    cs.append(("corpus-alloc-instances-vec", ["type vec tv", "push 0 1", "push 1 2", "swap 0 1", "push 0 3", "push 0 4", "massign 2 0", "mctor 0 1", "assign 1 2", "push 1 5", "push 1 6", "push 1 7"]))
+    cs.append(("corpus-alloc-instances-dyn", ["type dyn tv", "make 0 2", "make 1 3", "swap 0 1", "make 0 1", "massign 2 1", "mctor 1 0", "assign 0 2", "make 2 4"]))
     cs.append(("corpus-ilist-roles", ["type ilist -", "ins 0 0 1", "ins 0 1 2", "ins 0 0 3", "ins 0 1 4", "ins 0 3 5", "erase 0 4", "erase 0 2", "erase 0 3",
                                       "splice 1 0", "splice 1 0", "splice 0 1", "popb 0", "popf 0", "clear 0", "splice 0 1"]))
     cs.append(("corpus-ilist-asserts", ["type ilist -", "pb 0 1", "pb 1 1"]))
